@@ -70,7 +70,7 @@ def split_returns(o, it, data):
     kept as implications at the join and fire when the guard is assumed)."""
     v = o.value
     if not (isinstance(v, tuple) and len(v) == 3 and isinstance(v[2], Sym)
-            and v[2].op == 'cond'):
+            and v[2].op in ('cond', 'dyncall')):
         return [Ret(o, it, data)]
     leaves = []
 
@@ -78,6 +78,11 @@ def split_returns(o, it, data):
         if isinstance(t, Sym) and t.op == 'cond' and len(leaves) < 16:
             walk(t.args[1], guards + [t.args[0]])
             walk(t.args[2], guards + [T.not_(t.args[0])])
+        elif isinstance(t, Sym) and t.op == 'dyncall' and len(leaves) < 16:
+            # a call through a dispatch table with a run-time key: one
+            # result per key
+            for k_, alt in t.args[2]:
+                walk(alt, guards + [T.compare('eq', t.args[1], k_)])
         else:
             leaves.append((guards, t))
     walk(v[2], [])
